@@ -181,7 +181,10 @@ class C10(Prop):
             "space and \\u escapes and fed to json.Unmarshal on the typed target or to ParseClientMsg (8% with leading "
             "white space, 4% with an escaped label), then Marshal and decode again (6% of these "
             "texts with invalid UTF-8 injected, see below); 20% Go values built directly (70% "
-            "well-formed, 30% with nil slices/pointers, un-normalised reasons, illegal tag names), Marshal then Unmarshal; "
+            "well-formed, 30% with nil slices/pointers, un-normalised reasons, illegal tag names; 15% of the since/until/limit and "
+            "some created_at beyond 2^53 or at the ends of int64), Marshal then Unmarshal; in the value histories every "
+            "value's own MarshalJSON is first called directly and the returned bytes are kept: they must be unchanged after "
+            "all the other encodings; "
             "20% malformed texts (random bytes, truncations, byte mutations, nesting depth 50..100000, 400-digit numbers, "
             "invalid UTF-8: a quarter of them messages of any type printed with a raw non-UTF-8 byte sequence -- lone 0xff, "
             "lead byte alone, truncated form, encoded surrogate, > U+10FFFF, over-long form, lone continuation -- at a random "
